@@ -155,6 +155,11 @@ PROPS = {
     "C06": {
         "class_prefixes": ["c06-", "harness-crash", "c07-fifo"],
         "subs": [
+            {"name": "ovs", "n_quick": 40, "n_thorough": 600, "oracle": False,
+             "rule": "the limit for what an endpoint reads is the max-frame-size it announced itself, whatever the peer announced: real client and real listener "
+                     "with local limit L in {512, 1024, 4096, ..} against a scripted peer announcing R in {512, L, 4L, 2^24, 2^32-1}; the peer sends a close frame "
+                     "padded to exactly S octets (L-1, L, L+1, 2L, 4L, random) or only the 8-octet header of a frame claiming 4L or 8 MiB: within the limit the "
+                     "close is read; beyond it the frame is not acted on and a header alone is refused at once instead of being waited for"},
             {"name": "fdec", "n_quick": 400, "n_thorough": 6000, "model": "coq/Frame/AmqpFrame.v, coq/Codec/Composite.v",
              "rule": "the AMQP frame codec on the bytes after the size field: `enc` = a generated frame (9 performatives with random field presence and "
                      "boundary values, channels 0 / 65535 / random, transfer payloads of 0..300 bytes) written by the real Transport / FrameEncoder and read "
@@ -516,6 +521,11 @@ PROPS = {
     "C15": {
         "class_prefixes": ["c15-", "harness-crash"],
         "subs": [
+            {"name": "ovs", "n_quick": 40, "n_thorough": 600, "oracle": False,
+             "rule": "the limit for what an endpoint reads is the max-frame-size it announced itself, whatever the peer announced: real client and real listener "
+                     "with local limit L in {512, 1024, 4096, ..} against a scripted peer announcing R in {512, L, 4L, 2^24, 2^32-1}; the peer sends a close frame "
+                     "padded to exactly S octets (L-1, L, L+1, 2L, 4L, random) or only the 8-octet header of a frame claiming 4L or 8 MiB: within the limit the "
+                     "close is read; beyond it the frame is not acted on and a header alone is refused at once instead of being waited for"},
             {"name": "fdec", "n_quick": 400, "n_thorough": 6000, "model": "coq/Frame/AmqpFrame.v, coq/Codec/Composite.v",
              "rule": "the AMQP frame codec on the bytes after the size field: `enc` = a generated frame (9 performatives with random field presence and "
                      "boundary values, channels 0 / 65535 / random, transfer payloads of 0..300 bytes) written by the real Transport / FrameEncoder and read "
